@@ -513,6 +513,64 @@ theorem converted_accept_needs_convertible {α : Type} (env : Env α) (i : Nat) 
     | ok _ => rw [hf] at h; cases h
     | error e => rw [hf] at h; cases h
 
+/-- the one-to-one correspondence between yielded flows and loaded records, for ANY reader environment and ANY property
+    that its `from_state` guarantees of the records it accepts -/
+private theorem yielded_all {α : Type} (env : Env α) (P : Value → Prop)
+    (hP : ∀ i v x, env.fromState i v = .ok x → P v) :
+    ∀ (f i : Nat) (s : Bytes),
+      (yieldedFrom env f i s).length = (streamLoop env f i s).1.length ∧ ∀ v ∈ yieldedFrom env f i s, P v := by
+  intro f
+  induction f with
+  | zero => intro i s; simp [yieldedFrom, streamLoop]
+  | succ f ih =>
+    intro i s
+    simp only [yieldedFrom, streamLoop]
+    cases hl : load env.memLimit env.depth s with
+    | error e =>
+      simp only []
+      by_cases he : e = .emptyFile
+      · simp [he]
+      · by_cases hc : caughtOuter e = true <;> simp [he, hc]
+    | ok p =>
+      obtain ⟨v, rest⟩ := p
+      simp only []
+      by_cases hd : isDict v = true
+      · simp only [hd, Bool.not_true, Bool.false_eq_true, if_false]
+        cases hf : env.fromState i v with
+        | error x => cases x <;> simp
+        | ok fl =>
+          simp only []
+          obtain ⟨h1, h2⟩ := ih (i + 1) rest
+          refine ⟨by simp [h1], ?_⟩
+          intro w hw
+          rcases List.mem_cons.mp hw with hw | hw
+          · rw [hw]; exact hP i v fl hf
+          · exact h2 w hw
+      · simp [hd]
+
+/-- **C36 (every flow of every file, older formats included).** For ANY byte string, with the converter chain for the
+    integer formats 5 … 20 in the reader: the yielded flows correspond one to one to loaded records, and each of these is
+    of the current format with registered type and admissible shape, or of format 5 … 20 and convertible to such a
+    state (or lies outside the transcription: format 4, tuple-era formats, the two branches left out). -/
+theorem converted_yielded_flows_acceptable {α : Type} (env : Env α) (f i : Nat) (s : Bytes) :
+    (yieldedFrom (converted env) f i s).length = (streamLoop (converted env) f i s).1.length ∧
+    ∀ v ∈ yieldedFrom (converted env) f i s, AcceptableC v := by
+  apply yielded_all (converted env) AcceptableC
+  intro i v x h
+  refine ⟨?_, ?_⟩
+  · intro hnd
+    apply accepted_record_is_wellshaped env i v x
+    rw [converted_fromState] at h
+    cases hg : gate v with
+    | defer => exact absurd hg hnd
+    | rejectV => simpa [hg] using h
+    | rejectX => simpa [hg] using h
+    | deferShape => simpa [hg] using h
+    | pass ty => simpa [hg] using h
+  · intro hg kvs hv
+    subst hv
+    exact converted_accept_needs_convertible env i kvs x hg h
+
 /-- **C36 (reads may be chunked any way).** `BufferedReader.read(k)` over a raw stream that delivers its content in
     ANY segments returns the same bytes, and leaves the same unread content, as reading the concatenated content. -/
 theorem read_chunk_independent (segs : List Bytes) (k : Nat) :
